@@ -95,6 +95,11 @@ def failing_blocks(k):
               [], 3, 'ValueError', 'exception'))
     B.append(('raise_with_stdout_replaced', ['>>> import io, sys', '>>> sys.stdout = io.StringIO(); t(%d); sys.stdout.close(); raise KeyError("gone")' % k], [], 1, 'KeyError', 'exception'))
     B.append(('traceback_want_mismatch', ['>>> boom(%d)' % k], ['Traceback (most recent call last):', 'KeyError: other'], 1, 'GotWantException', 'gotwant'))
+    # the documented exception TYPE is wrong: a failure under every setting, also when only the type is compared
+    B.append(('traceback_wrong_type_ignore_detail', ['>>> # xdoctest: +IGNORE_EXCEPTION_DETAIL', '>>> boom(%d)' % k],
+              ['Traceback (most recent call last):', 'KeyError: whatever the message'], 2, 'GotWantException', 'gotwant'))
+    B.append(('traceback_wrong_type_ignore_detail_inline', ['>>> boom(%d)  # xdoctest: +IGNORE_EXCEPTION_DETAIL' % k],
+              ['Traceback (most recent call last):', 'pkg.KeyError: whatever'], 1, 'GotWantException', 'gotwant'))
     return B
 
 
